@@ -95,6 +95,23 @@ PROPS = {
             J("rsec16", "C12_parallel_out", bound="shard length 2..6 bytes, goroutines 1..3"),
         ],
     ),
+    "C04": dict(
+        explanation="real PAR1 create / verify / repair on the symbolic file system with a contract stub of klauspost/reedsolomon",
+        assumptions=["github.com/klauspost/reedsolomon (third-party, SIMD assembly) is replaced by a contract stub implementing the PAR1 matrix over GF(2^8) mod 0x11D; on native replay the real library runs",
+                     "MD5 injective model; symFS below the package's fileIO interface"],
+        jobs=[
+            J("par1", "C04_roundtrip", bound="1..3 files of 0..3 symbolic bytes (incl. an empty file next to non-empty ones), 1..2 volumes, every subset of data files deleted / overwritten, every subset of volumes deleted, double-check on/off", must_reach=["clean", "repairable", "unrepairable"]),
+            J("par1", "C04_roundtrip_unicode", bound="a non-ASCII name and a name needing a UTF-16 surrogate pair, sizes 2 and 0, 2 volumes, every damage subset"),
+        ],
+    ),
+    "C10": dict(
+        explanation="PAR 1.0 layout: the real writer judged by an independent reader; the real reader on sets from an independent reference writer",
+        assumptions=["reedsolomon contract stub as in C04: what is checked is ordering, padding, numbering, hashes and that the PAR1 matrix is requested"],
+        jobs=[
+            J("par1", "C10_writer", bound="1..3 files (non-ASCII and surrogate-pair names, an empty file), 1..2 volumes, symbolic contents"),
+            J("par1", "C10_reader", bound="2 saved entries + 1 non-saved entry at every position, a comment in the index, 2 volumes; one saved file lost"),
+        ],
+    ),
     "C05": dict(
         explanation="real Create on a symbolic file system, output judged by an independent PAR2 reader and Reed-Solomon oracle written from the specification",
         assumptions=["MD5 is modelled as an injective function (collision- and forgery-free); CRC32 is the bitwise reflected CRC (validated against hash/crc32)",
@@ -117,6 +134,7 @@ PROPS = {
             J("par2", "C15_checkFilename_long", tier="thorough", bound="declared names of 0..6 symbolic bytes"),
             J("par2", "C15_getFilePath", bound="names of 0..3 bytes, relative index path"),
             J("par2", "C15_newEncoder", bound="input paths '/'+0..4 symbolic bytes against base /a", must_reach=["accepted"]),
+            J("par1", "C15_par1_names", bound="PAR1: declared names of 1..4 symbolic bytes over { . / \\ a }, file missing, one volume", must_reach=["written"]),
         ],
     ),
     "C16": dict(
@@ -139,10 +157,11 @@ PROPS = {
     ),
     "C02": dict(
         explanation="write log of the symbolic file system during Repair / Verify / Create compared with the originals",
-        assumptions=["PAR2 only so far", "MD5 injective model; symFS below fileIO"],
+        assumptions=["MD5 injective model; symFS below fileIO", "PAR1: reedsolomon contract stub as in C04"],
         jobs=[
             J("par2", "C02_repair_arbitrary", bound="1 file of 4/5/8 bytes, 1 block, arbitrary current content of length 0..len+1, a bystander file present, double-check on/off"),
             J("par2", "C02_garbage_parity", bound="recovery block replaced by arbitrary bytes with a recomputed packet hash; file intact / missing / one slice overwritten"),
+            J("par1", "C04_roundtrip_unicode", bound="PAR1: write log of Repair for every damage subset of a 2-file, 2-volume set (the C04 harness)"),
         ],
     ),
     "C03": dict(
@@ -156,9 +175,10 @@ PROPS = {
     ),
     "C14": dict(
         explanation="one Repair step from an arbitrary state of the protected file and recovery file; induction over histories argued on paper (DESIGN.md section 5)",
-        assumptions=["PAR2 only so far", "the only state carried between operations is the directory content (decoders are rebuilt from disk on every call)"],
+        assumptions=["PAR1: reedsolomon contract stub as in C04", "the only state carried between operations is the directory content (decoders are rebuilt from disk on every call)"],
         jobs=[
             J("par2", "C14_step", bound="1 file of 4/5/8 bytes, 1 block present or deleted, 7 damage kinds incl. arbitrary content; Repair, then Verify and a second Repair", must_reach=["failed", "succeeded"]),
+            J("par1", "C04_roundtrip", bound="PAR1: Repair from every damage state of the C04 scenario leaves only originals (the C04 harness)"),
         ],
     ),
     "C06": dict(
@@ -182,16 +202,17 @@ PROPS = {
     ),
     "C18": dict(
         explanation="the symbolic file system fails the n-th read / the directory listing / the n-th write (optionally leaving a torn prefix), n ranging over every I/O call of the operation",
-        assumptions=["PAR2 only so far", "single fault per run"],
+        assumptions=["single fault per run", "PAR1: reedsolomon contract stub as in C04"],
         jobs=[
             J("par2", "C18_create_faults", bound="2 input files, 3 blocks (index + 2 volumes): fault at each of 2 reads / 3 writes, torn prefix of 0, 64, 100 bytes or none"),
             J("par2", "C18_verify_faults", bound="2 files, 2 blocks, intact or one file missing: fault at each read, or at the directory listing"),
             J("par2", "C18_repair_faults", bound="2 files both needing repair, 3 blocks: fault at each read, the listing, or each write (torn 0 / 2 bytes / untouched)"),
+            J("par1", "C18_par1_faults", bound="PAR1 Repair: fault at each read or at the write (torn 0 / 1 byte / untouched)"),
         ],
     ),
     "C13": dict(
         explanation="truncation at every offset, any single corrupted byte, deletion/emptying of any subset of files, interrupted Create prefixes; PAR2",
-        assumptions=["PAR2 only so far", "MD5 injective model"],
+        assumptions=["MD5 injective model", "PAR1: reedsolomon contract stub as in C04"],
         jobs=[
             J("par2", "C13_truncate_index", bound="index file cut at every length 0..len; data present or missing"),
             J("par2", "C13_truncate_volume", bound="volume file cut at every length"),
@@ -199,11 +220,13 @@ PROPS = {
             J("par2", "C13_corrupt_byte", bound="any one byte of the index or volume file replaced by any other value"),
             J("par2", "C13_delete_subset", bound="every file of a 2-file, 2-block set present / deleted / emptied (3^5 states)"),
             J("par2", "C13_interrupted_create", bound="every prefix of Create's 3 file writes, last file cut at every packet boundary"),
+            J("par1", "C13_par1_truncate", bound="PAR1: index or either volume cut at every length; data intact / one file missing / one file and all volumes missing"),
+            J("par1", "C13_par1_corrupt", bound="PAR1: any one byte of the index or first volume replaced by any other value"),
         ],
     ),
     "C19": dict(
         explanation="well-checksummed but inconsistent PAR2 archives from a reference writer; boundary values for every numeric field",
-        assumptions=["PAR2 only so far", "boundary value lists as in the property's quantifier"],
+        assumptions=["boundary value lists as in the property's quantifier", "PAR1: reedsolomon contract stub as in C04"],
         jobs=[
             J("par2", "C19_packet_length", bound="Length field of any one packet of index or volume: all 2^64 values"),
             J("par2", "C19_main_fields", bound="slice size x recovery-set count over boundary lists"),
@@ -211,6 +234,7 @@ PROPS = {
             J("par2", "C19_recovery_fields", bound="exponent over a boundary list x recovery data of 0, 4, 8 bytes"),
             J("par2", "C19_missing_packets", bound="each mandatory packet type removed / main duplicated"),
             J("par2", "C19_file_hash", bound="declared whole-file MD5 = 16 arbitrary bytes, valid recovery blocks 0 and 1, data file missing", must_reach=["written", "rejected"]),
+            J("par1", "C19_par1_fields", bound="PAR1: volume number, file count, list size, data offset, data size, entry size, file length at boundary values in the index or a volume, control hash recomputed"),
         ],
     ),
 }
